@@ -57,6 +57,8 @@ def die2(msg):
 
 def scratch_dir():
     base = os.environ.get("TMPDIR", "/tmp")
+    if not os.path.isdir(base):
+        base = "/tmp"
     return tempfile.mkdtemp(prefix="dsim-", dir=base)
 
 
@@ -454,4 +456,12 @@ def main():
 
 
 if __name__ == "__main__":
-    main()
+    try:
+        main()
+    except SystemExit:
+        raise
+    except BaseException as e:  # any trouble of the driver itself is exit 2, never a verdict
+        import traceback
+        traceback.print_exc()
+        log("dsim: driver trouble (%s): not a verdict" % e)
+        sys.exit(2)
